@@ -82,6 +82,7 @@ type shape struct {
 	body  map[[2]int][]op   // what the decoder of type t does on object e
 	fails map[[2]int]bool   // decoder returns an error
 	nilv  map[[2]int]bool   // decoder returns a nil interface value
+	errKind int             // flavour of the failing decoders' error: 0 plain, 1 malformed, 2 wraps pdf.ErrCycle
 	sink  bool              // the exclusive-dependency relation of the decoders is well-founded (no_deadlock_ranked applies): a deadlock is a failure
 	rd    *pdf.Reader
 	refs  []pdf.Reference // refs[i] = reference of object i (1-based)
@@ -184,9 +185,30 @@ func (*thingC) isIfc() {}
 
 var errDecode = errors.New("harness decoder failure")
 
+// decErr: the error a failing harness decoder returns - a distinct value per run, in three flavours
+type decErr struct {
+	id    int
+	inner error
+}
+
+func (d *decErr) Error() string { return fmt.Sprintf("decoder run %d: %v", d.id, d.inner) }
+func (d *decErr) Unwrap() error { return d.inner }
+
+func newDecErr(id, kind int) *decErr {
+	switch kind % 3 {
+	case 1:
+		return &decErr{id, &pdf.MalformedFileError{Err: errDecode}}
+	case 2:
+		return &decErr{id, fmt.Errorf("decoder: %w", pdf.ErrCycle)} // looks like a cycle error, is the decoder's
+	}
+	return &decErr{id, errDecode}
+}
+
 type outc struct {
-	err string // "" = value
-	ptr any
+	err    string // "" = value
+	ptr    any
+	waited bool  // the (exclusive) call waited for a leader
+	errp   error // the error value itself
 }
 
 type event struct {
@@ -208,6 +230,7 @@ type arrival struct {
 }
 
 type controller struct {
+	onWait func(tid int) // a goroutine is about to wait for a pending exclusive decode
 	mu     sync.Mutex
 	tids   map[int64]int
 	arrive chan arrival
@@ -237,6 +260,9 @@ func (c *controller) hook(point string, done <-chan struct{}) {
 	if !ok {
 		return
 	}
+	if done != nil && c.onWait != nil {
+		c.onWait(tid)
+	}
 	c.park(tid, done)
 }
 
@@ -263,6 +289,8 @@ type runResult struct {
 	stuck    string
 	lockViol []string
 	epilogue []string // failures of the sequential re-decode
+	decErrs    map[*decErr]int
+	waiterRuns []string
 }
 
 type runCtx struct {
@@ -271,6 +299,19 @@ type runCtx struct {
 	mu     sync.Mutex
 	events []event
 	quiet  bool
+
+	waited     map[int]bool    // per goroutine: its current exclusive call has waited for a leader
+	decErrs    map[*decErr]int // error values made by decoder runs -> goroutine
+	nDecErr    int
+	waiterRuns []string // a call that had waited ran the decode function itself
+}
+
+func (rc *runCtx) setWaited(tid int, v bool) (old bool) {
+	rc.mu.Lock()
+	old = rc.waited[tid]
+	rc.waited[tid] = v
+	rc.mu.Unlock()
+	return old
 }
 
 func (rc *runCtx) log(e event) {
@@ -282,6 +323,10 @@ func (rc *runCtx) log(e event) {
 }
 
 func errClass(err error) string {
+	var de *decErr
+	if errors.As(err, &de) {
+		return "eX"
+	}
 	switch {
 	case errors.Is(err, pdf.ErrCycle):
 		return "eC"
@@ -308,11 +353,23 @@ func callT[T any](rc *runCtx, tid int, cur pdf.Cursor, o op, mk func(e int) T) o
 		var zero T
 		e := objID(obj)
 		rc.log(event{kind: 'R', tid: tid, r: o.r, e: e, t: o.t, ex: excl})
+		if excl {
+			rc.mu.Lock()
+			if rc.waited[tid] && !rc.quiet {
+				rc.waiterRuns = append(rc.waiterRuns, fmt.Sprintf("goroutine %d, DecodeExclusive(%d, type %d)", tid, o.r, o.t))
+			}
+			rc.mu.Unlock()
+		}
 		for _, k := range rc.sh.body[[2]int{e, o.t}] {
 			rc.exec(tid, c, k)
 		}
 		if rc.sh.fails[[2]int{e, o.t}] {
-			return zero, errDecode
+			rc.mu.Lock()
+			rc.nDecErr++
+			de := newDecErr(rc.nDecErr, rc.sh.errKind)
+			rc.decErrs[de] = tid
+			rc.mu.Unlock()
+			return zero, de
 		}
 		return mk(e), nil
 	}
@@ -322,15 +379,18 @@ func callT[T any](rc *runCtx, tid int, cur pdf.Cursor, o op, mk func(e int) T) o
 	}
 	var v T
 	var err error
+	waited := false
 	if excl {
+		saved := rc.setWaited(tid, false)
 		v, err = pdf.DecodeExclusive(c, rc.sh.refs[o.r], dec)
+		waited = rc.setWaited(tid, saved)
 	} else {
 		v, err = pdf.Decode(c, rc.sh.refs[o.r], dec)
 	}
 	if err != nil {
-		return outc{err: errClass(err)}
+		return outc{err: errClass(err), waited: waited, errp: err}
 	}
-	return outc{ptr: any(v)}
+	return outc{ptr: any(v), waited: waited}
 }
 
 func (rc *runCtx) call(tid int, cur pdf.Cursor, o op) outc {
@@ -386,7 +446,8 @@ func runOnce(sh *shape, prog [][]op, prefix []int, choose func(enabled []int) in
 	for i := range c.resume {
 		c.resume[i] = make(chan struct{})
 	}
-	rc := &runCtx{sh: sh, x: pdf.NewExtractor(sh.rd)}
+	rc := &runCtx{sh: sh, x: pdf.NewExtractor(sh.rd), waited: map[int]bool{}, decErrs: map[*decErr]int{}}
+	c.onWait = func(tid int) { rc.setWaited(tid, true) }
 	var lmu sync.Mutex
 	pdf.VerifSchedHook = c.hook
 	pdf.VerifLockHook = func(where string) {
@@ -525,6 +586,11 @@ func runOnce(sh *shape, prog [][]op, prefix []int, choose func(enabled []int) in
 	pdf.VerifSchedHook = nil
 	rc.mu.Lock()
 	res.events = append([]event(nil), rc.events...)
+	res.decErrs = map[*decErr]int{}
+	for k, v := range rc.decErrs {
+		res.decErrs[k] = v
+	}
+	res.waiterRuns = append([]string(nil), rc.waiterRuns...)
 	rc.quiet = true
 	rc.mu.Unlock()
 
@@ -632,6 +698,20 @@ func oracle(sh *shape, prog [][]op, res *runResult) (sig, what string) {
 	}
 	if len(res.lockViol) > 0 {
 		return "lock", "critical section entered without Extractor.mu held: " + strings.Join(res.lockViol, ",")
+	}
+	if len(res.waiterRuns) > 0 {
+		return "exclusive-once", "a DecodeExclusive call that had waited for the leader of its key ran the decode function itself instead of sharing the leader's outcome: " + res.waiterRuns[0]
+	}
+	for _, ev := range res.events {
+		if ev.kind == 'X' && ev.o1.waited && ev.o1.errp != nil {
+			var de *decErr
+			if !errors.As(ev.o1.errp, &de) {
+				continue
+			}
+			if who, ok := res.decErrs[de]; !ok || who == ev.tid {
+				return "exclusive-once", fmt.Sprintf("goroutine %d waited for the leader of DecodeExclusive(%d, type %d) but did not receive the leader's error value (it returned %q)", ev.tid, ev.r, ev.t, ev.o1.errp.Error())
+			}
+		}
 	}
 	if res.deadlock && sh.sink {
 		return "deadlock", "all unfinished goroutines wait for each other: statuses " + strings.Join(res.statuses, "|")
